@@ -1,4 +1,4 @@
-\* part P: three PEX overlays (1, 2 in swarm 1; 3 in swarm 2), two seeder keys, bounded deque
+\* negative control: processing extra bytes of another swarm must violate PexOwnSwarm
 SPECIFICATION SpecP
 CONSTANTS
   T0 = 10  MaxTime = 13
@@ -7,7 +7,7 @@ CONSTANTS
   SeedingChoices = {FALSE}
   DupAdd = FALSE  ExpireUsed = FALSE  NoGate = FALSE  ForgetHistory = FALSE
   Nodes = {1, 2, 3}  NSwarmA = 2  PSeeders = {1, 2}  PexAge = 1  PexCap = 2  SendCap = 10
-  Unload = FALSE  ExpireNewest = FALSE  CrossSwarm = FALSE  MaxMsgs = 1  MaxAnn = 2
+  Unload = FALSE  ExpireNewest = FALSE  CrossSwarm = TRUE  MaxMsgs = 1  MaxAnn = 2
 CONSTRAINT PConstraint
 INVARIANT TypeOK
 INVARIANT PexFresh
